@@ -1448,7 +1448,19 @@ func (p *c41part) overBound(typ reflect.Type, name string) {
 		if enc == nil {
 			continue
 		}
-		what := fmt.Sprintf("instance with %s holding bound+1 = %d elements (level %d), %d bytes", s.path, s.bound+1, s.level, len(enc))
+		forms := [][]byte{enc}
+		if af, _, ok := c41toArrayForm(typ, enc, 0, 0); ok && string(af) != string(enc) {
+			forms = append(forms, af)
+		}
+		for fi, in := range forms {
+			p.overBoundOne(typ, name, s, in, []string{"map form", "struct-from-array form"}[fi])
+		}
+	}
+}
+
+func (p *c41part) overBoundOne(typ reflect.Type, name string, s c41site, enc []byte, form string) {
+	{
+		what := fmt.Sprintf("instance (%s) with %s holding bound+1 = %d elements (level %d), %d bytes", form, s.path, s.bound+1, s.level, len(enc))
 		o := p.decode(typ, name, enc, what)
 		switch {
 		case o.panicked:
